@@ -141,6 +141,12 @@ func Catch(f func()) (p bool) {
 	return false
 }
 func PanicMsg() string { return lastPanic }
+func ErrText(err error) string {
+	if err == nil {
+		return "<nil>"
+	}
+	return err.Error()
+}
 func Observe(tag string, b []byte) {
 	Observed = append(Observed, tag+"="+hex.EncodeToString(b))
 }
